@@ -192,7 +192,10 @@ func init() {
 			}
 		}
 		for _, t := range []string{"vars {\n\tn", "vars { nu", "vars { n $x }", "vars { mo $m = balance(@a, USD) }\nsend $m (source = @a destination = @b)", "vars { a $a p $p s $s }",
-			"vars { ac $acc }\nsend [USD 1] (source = $acc destination = @b)", "vars { é $x }", "vars { 😀 $x }"} {
+			"vars { ac $acc }\nsend [USD 1] (source = $acc destination = @b)", "vars { é $x }", "vars { 😀 $x }",
+			// a declaration without a type whose variable is an operand
+			"vars { $x }\nset_tx_meta(\"k\", $x + 1)", "vars { $m }\nsend $m - [USD 1] (source = @a destination = @b)", "vars { $n number $k }\nsend [USD $k + $n] (source = @a destination = @b)",
+			"vars { = balance(@a, USD) }\nsend [USD 1] + $x (source = @a destination = @b)"} {
 			c.editorCase(t, map[string]any{"edit": "corpus"})
 		}
 		root := NewRand(c.seed)
